@@ -65,8 +65,7 @@ def _injected_generator(cfg):
             continue
         seen.setdefault(repr((s["agent_position"], s["target_position"], s["walls"])), s)
     init = [seen[k] for k in sorted(seen)]
-    if cfg.get("limit") and len(init) > cfg["limit"]:
-        init = init[:: max(1, len(init) // cfg["limit"])]
+    init = inject.thin(init, cfg.get("limit"))
     cfg["episodes"] = len(init)
     rows, cols = len(init[0]["walls"]), len(init[0]["walls"][0])
     assert (rows, cols) == (cfg["ctor"]["rows"], cfg["ctor"]["cols"])
@@ -154,7 +153,7 @@ class Adapter(EnvAdapter):
                               max_steps=(tl or len(lay) * len(lay[0])) + 3, policies=ALL_POL))
         out.append(_c("inj2x3_t2", "inject", 2, 3, 2, inject=("MC_Maze", "MC_Maze_quick.cfg"), max_steps=2, post_terminal=0,
                       policies=["random"], props=INJ_PROPS))
-        out.append(_c("inj3x3_tnone", "inject", 3, 3, None, inject=("MC_Maze", "MC_Maze_thorough.cfg"), limit=6000, max_steps=1,
+        out.append(_c("inj3x3_tnone", "inject", 3, 3, None, inject=("MC_Maze", "MC_Maze_thorough.cfg"), limit=4000, max_steps=1,
                       post_terminal=0, policies=["random"], props=INJ_PROPS))
         seen = set()
         return [c for c in out if not (c["id"] in seen or seen.add(c["id"]))]
